@@ -168,7 +168,21 @@ func corpusInputs() ([]Input, []map[string]string) {
 			return gen.Project(t, gen.ProjectOpts{KeyType: true, RegexType: true, Container: true, EnumNotes: true})
 		})
 		for i := 0; i < 160; i++ {
-			sp := pg.Example(i + 1).Text(nil)
+			mp := pg.Example(i + 1)
+			// notes of every shape, each naming its input: a note that turns up in another input's result is cross-talk
+			k := 0
+			mp.Root.Walk(func(n *model.Node) {
+				k++
+				switch (i + k) % 5 {
+				case 0:
+					n.Note = fmt.Sprintf("input %d, node %d", i, k)
+				case 1:
+					n.Note = fmt.Sprintf("input %d,\n   node %d: a note\n   of three lines", i, k)
+				case 2:
+					n.Note = fmt.Sprintf("input %d\tnode %d  tab and two blanks", i, k)
+				}
+			})
+			sp := mp.Text(nil)
 			inputs = append(inputs, Input{Kind: "project", Project: &sp})
 		}
 		sat := rapid.Custom(func(t *rapid.T) *model.Project {
@@ -202,6 +216,16 @@ func corpusInputs() ([]Input, []map[string]string) {
 			}
 			sequential = append(sequential, m)
 		}
+		acc, noted := 0, 0
+		for i, in := range inputs {
+			if in.Kind == "project" && sequential[i]["check"] == "<nil>" {
+				acc++
+				if strings.Contains(in.Project.Root, "a note\n") {
+					noted++
+				}
+			}
+		}
+		ev.Note("assignments", fmt.Sprintf("corpus: %d inputs, %d accepted schema projects, %d of them with multi-line notes", len(inputs), acc, noted))
 	})
 	return inputs, sequential
 }
